@@ -9,45 +9,45 @@ import Jamm.Model.Layout
 namespace Jamm
 
 section
-variable (L : Layout) (pagesize : Nat)
+variable {E : Type} (L : Layout) (pagesize : Nat) (esz : Bytes × E → Nat)
 
 /-- `TxFreelist::allocate`: pages needed for `bytes` bytes -/
 def runLen (bytes : Nat) : Nat := if bytes % pagesize = 0 then bytes / pagesize else bytes / pagesize + 1
 
-/-- `Node::size` -/
-def nodeBytes : Tree Bytes Ent → Nat
-  | .leaf _ es => L.pageSize + es.length * L.leafSize + (es.map (entSize L.bmSize)).sum
+/-- `Node::size` (`esz` = stored size of a leaf entry: `entSize L.bmSize` for the payload `Ent`) -/
+def nodeBytes : Tree Bytes E → Nat
+  | .leaf _ es => L.pageSize + es.length * L.leafSize + (es.map esz).sum
   | .branch _ kids => L.pageSize + kids.length * L.branchSize + (kids.toList.map (fun e => e.1.length)).sum
 
 /-- the pages of the run a stored node occupies (none for a node that has no page yet) -/
-def nodeRun (t : Tree Bytes Ent) : List Nat :=
+def nodeRun (t : Tree Bytes E) : List Nat :=
   let pg := nodePage t.pid
-  if pg = 0 then [] else (List.range (runLen pagesize (nodeBytes L t))).map (· + pg)
+  if pg = 0 then [] else (List.range (runLen pagesize (nodeBytes L esz t))).map (· + pg)
 
 mutual
 /-- every page of every stored node of the tree -/
-def treeRuns : Tree Bytes Ent → List Nat
-  | .leaf p es => nodeRun L pagesize (.leaf p es)
-  | .branch p kids => nodeRun L pagesize (.branch p kids) ++ forestRuns kids
-def forestRuns : Forest Bytes Ent → List Nat
+def treeRuns : Tree Bytes E → List Nat
+  | .leaf p es => nodeRun L pagesize esz (.leaf p es)
+  | .branch p kids => nodeRun L pagesize esz (.branch p kids) ++ forestRuns kids
+def forestRuns : Forest Bytes E → List Nat
   | .nil => []
   | .cons _ t rest => treeRuns t ++ forestRuns rest
 end
 
 mutual
 /-- the run sizes requested for the nodes the commit writes (the nodes without a page in the result) -/
-def treeRequests : Tree Bytes Ent → List Nat
-  | .leaf p es => if nodePage p = 0 then [runLen pagesize (nodeBytes L (.leaf p es))] else []
+def treeRequests : Tree Bytes E → List Nat
+  | .leaf p es => if nodePage p = 0 then [runLen pagesize (nodeBytes L esz (.leaf p es))] else []
   | .branch p kids =>
-    (if nodePage p = 0 then [runLen pagesize (nodeBytes L (.branch p kids))] else []) ++ forestRequests kids
-def forestRequests : Forest Bytes Ent → List Nat
+    (if nodePage p = 0 then [runLen pagesize (nodeBytes L esz (.branch p kids))] else []) ++ forestRequests kids
+def forestRequests : Forest Bytes E → List Nat
   | .nil => []
   | .cons _ t rest => treeRequests t ++ forestRequests rest
 end
 
 /-- pages one bucket's commit frees: the runs of the overlay that are not runs of the committed tree -/
-def commitFreed (pre post : Tree Bytes Ent) : List Nat :=
-  (treeRuns L pagesize pre).filter (fun p => !(treeRuns L pagesize post).contains p)
+def commitFreed (pre post : Tree Bytes E) : List Nat :=
+  (treeRuns L pagesize esz pre).filter (fun p => !(treeRuns L pagesize esz post).contains p)
 
 end
 end Jamm
